@@ -6,7 +6,7 @@
 //!          cl: class, n: class specific number, ks: [[constant index, kind]]}], nconst}
 //! classes: "plain" | "jump" | "cjump" (conditional: falls through or jumps) | "ret" | "throw" |
 //!          "frame" (n = register count) | "fn" (n = body size, tg = ip after the body) |
-//!          "seqstart" "seqend" "strstart" "strend" | "trystart" (tg = catch ip) | "tryend" | "yield" | "error"
+//!          "seqstart" "seqend" "seqpush" "strstart" "strend" "strpush" | "trystart" (tg = catch ip) | "tryend" | "yield" | "error"
 
 use crate::capture::take_panic;
 use koto_bytecode::{CompilerSettings, Instruction, InstructionReader, ModuleLoader};
@@ -59,8 +59,8 @@ fn decode(i: &Instruction, next_ip: usize) -> Rec {
         TempTupleToTuple { register, source } => rec("TempTupleToTuple", &[*register, *source]),
         MakeMap { register, .. } => rec("MakeMap", &[*register]),
         SequenceStart { .. } => Rec { cl: "seqstart", ..rec("SequenceStart", &[]) },
-        SequencePush { value } => rec("SequencePush", &[*value]),
-        SequencePushN { start, count } => rec("SequencePushN", &range(*start, *count as usize)),
+        SequencePush { value } => Rec { cl: "seqpush", ..rec("SequencePush", &[*value]) },
+        SequencePushN { start, count } => Rec { cl: "seqpush", ..rec("SequencePushN", &range(*start, *count as usize)) },
         SequenceToList { register } => Rec { cl: "seqend", ..rec("SequenceToList", &[*register]) },
         SequenceToTuple { register } => Rec { cl: "seqend", ..rec("SequenceToTuple", &[*register]) },
         Range { register, start, end } => rec("Range", &[*register, *start, *end]),
@@ -156,7 +156,7 @@ fn decode(i: &Instruction, next_ip: usize) -> Rec {
             ..rec("CheckType", &[*value])
         },
         StringStart { .. } => Rec { cl: "strstart", ..rec("StringStart", &[]) },
-        StringPush { value, .. } => rec("StringPush", &[*value]),
+        StringPush { value, .. } => Rec { cl: "strpush", ..rec("StringPush", &[*value]) },
         StringFinish { register } => Rec { cl: "strend", ..rec("StringFinish", &[*register]) },
     }
 }
